@@ -1,2 +1,215 @@
--- placeholder driver (model for C07 not built yet)
-def main : IO Unit := pure ()
+/-
+  Driver for the exception model (C07).  One request per line:
+
+    single <seqOut 0|1> <unserErr exc> <ctor> <kind p|c|g|s|i> <tb val> <step>
+    batch  <seqOut 0|1> <unserErr exc> <ctor> <batchFallback 0|1> <tb val> <step>*
+    decode <ctor> <val>                      (recreate_classes of a literal: exercises dict_to_class)
+
+  Values (no spaces):  N | T | F | I<int> | S<cp.cp…> (code points, hex) | A<0|1><cps> (opaque leaf, truthy bit)
+                       | O<cps> (unserialisable object of that class) | L(v,…) | U(v,…) | D(<cps>:v,…)
+  exc  = X(<cps of class>;L(args…);D(attrs…))        step = R<val> | E<exc>
+  ctor = -  (constructors return their arguments)  |  =<cps>=L(…)  (class <cps> returns these args)
+         |  !<cps>=<cps>  (class <cps>'s constructor raises an exception of the second class)
+
+  Reply:  <outcome> y=<L(…)> rel=<0|1> conn=<a|d>     outcome = value:<val> | raised:<exc> | connlost | codecfailed | unmodelled
+  Dicts are printed sorted by key.  The class relations and name tables come from PyroModel/Gen/C07.lean.
+-/
+import PyroModel.Exceptions
+import Driver.Util
+
+open Pyro Pyro.Exceptions Driver
+
+abbrev P (α : Type) := List Char → Option (α × List Char)
+
+def hexVal (c : Char) : Option Nat := hexDigit c
+
+partial def pHexNum : Nat → Bool → P Nat
+  | acc, seen, c :: rest =>
+    match hexVal c with
+    | some d => pHexNum (acc * 16 + d) true rest
+    | none => if seen then some (acc, c :: rest) else none
+  | acc, seen, [] => if seen then some (acc, []) else none
+
+/-- code points in hex separated by '.', possibly empty -/
+partial def pCps (acc : List Char) : P (List Char)
+  | inp =>
+    match pHexNum 0 false inp with
+    | none => some (acc.reverse, inp)
+    | some (n, rest) =>
+      match rest with
+      | '.' :: rest' => pCps (Char.ofNat n :: acc) rest'
+      | _ => some ((Char.ofNat n :: acc).reverse, rest)
+
+partial def pInt : P Int
+  | '-' :: rest =>
+    let ds := rest.takeWhile Char.isDigit
+    if ds.isEmpty then none else some (-(Int.ofNat (String.ofList ds).toNat!), rest.dropWhile Char.isDigit)
+  | inp =>
+    let ds := inp.takeWhile Char.isDigit
+    if ds.isEmpty then none else some (Int.ofNat (String.ofList ds).toNat!, inp.dropWhile Char.isDigit)
+
+mutual
+partial def pVal : P Val
+  | 'N' :: r => some (.none, r)
+  | 'T' :: r => some (.bool true, r)
+  | 'F' :: r => some (.bool false, r)
+  | 'I' :: r => (pInt r).map fun (i, r') => (.int i, r')
+  | 'S' :: r => (pCps [] r).map fun (s, r') => (.str s, r')
+  | 'A' :: '0' :: r => (pCps [] r).map fun (s, r') => (.atom false s, r')
+  | 'A' :: '1' :: r => (pCps [] r).map fun (s, r') => (.atom true s, r')
+  | 'O' :: r => (pCps [] r).map fun (s, r') => (.obj s, r')
+  | 'L' :: '(' :: r => (pSeq [] r).map fun (xs, r') => (.list xs, r')
+  | 'U' :: '(' :: r => (pSeq [] r).map fun (xs, r') => (.tuple xs, r')
+  | 'D' :: '(' :: r => (pPairs [] r).map fun (kv, r') => (.dict kv, r')
+  | _ => none
+partial def pSeq (acc : List Val) : P (List Val)
+  | ')' :: r => some (acc.reverse, r)
+  | ',' :: r => pSeq acc r
+  | inp =>
+    match pVal inp with
+    | some (v, r) => pSeq (v :: acc) r
+    | none => none
+partial def pPairs (acc : List (Str × Val)) : P (List (Str × Val))
+  | ')' :: r => some (acc.reverse, r)
+  | ',' :: r => pPairs acc r
+  | inp =>
+    match pCps [] inp with
+    | some (k, ':' :: r) =>
+      match pVal r with
+      | some (v, r') => pPairs ((k, v) :: acc) r'
+      | none => none
+    | _ => none
+end
+
+def pExc : P Exc
+  | 'X' :: '(' :: r =>
+    match pCps [] r with
+    | some (q, ';' :: r1) =>
+      match pVal r1 with
+      | some (.list args, ';' :: r2) =>
+        match pVal r2 with
+        | some (.dict attrs, ')' :: r3) => some (⟨q, args, attrs⟩, r3)
+        | _ => none
+      | _ => none
+    | _ => none
+  | _ => none
+
+def full {α : Type} (p : P α) (s : String) : Option α :=
+  match p s.toList with
+  | some (a, []) => some a
+  | _ => none
+
+def pStep : P Step
+  | 'R' :: r => (pVal r).map fun (v, r') => (.ret v, r')
+  | 'E' :: r => (pExc r).map fun (e, r') => (.raise e, r')
+  | _ => none
+
+def eqStr (a b : Str) : Bool := a == b
+
+def parseCtor (s : String) : Option (Str → List Val → Except Exc (List Val)) :=
+  match s.toList with
+  | ['-'] => some (fun _ a => .ok a)
+  | '=' :: r =>
+    match pCps [] r with
+    | some (q, '=' :: r1) =>
+      match pVal r1 with
+      | some (.list out, []) => some (fun c a => if eqStr c q then .ok out else .ok a)
+      | _ => none
+    | _ => none
+  | '!' :: r =>
+    match pCps [] r with
+    | some (q, '=' :: r1) =>
+      match pCps [] r1 with
+      | some (x, []) => some (fun c a => if eqStr c q then .error (pyErr x) else .ok a)
+      | _ => none
+    | _ => none
+  | _ => none
+
+/-! printing -/
+
+def hexOf (n : Nat) : String := String.ofList (Nat.toDigits 16 n)
+
+def showCps (s : Str) : String := ".".intercalate (s.map fun c => hexOf c.toNat)
+
+def strLt (a b : Str) : Bool := compare a b == .lt
+
+def insertSorted (p : Str × Val) : List (Str × Val) → List (Str × Val)
+  | [] => [p]
+  | q :: rest => if strLt p.1 q.1 then p :: q :: rest else q :: insertSorted p rest
+
+def sortPairs (kv : List (Str × Val)) : List (Str × Val) := kv.foldr insertSorted []
+
+mutual
+partial def showVal : Val → String
+  | .none => "N"
+  | .bool true => "T"
+  | .bool false => "F"
+  | .int i => "I" ++ toString i
+  | .str s => "S" ++ showCps s
+  | .atom t s => (if t then "A1" else "A0") ++ showCps s
+  | .obj s => "O" ++ showCps s
+  | .list xs => "L(" ++ ",".intercalate (xs.map showVal) ++ ")"
+  | .tuple xs => "U(" ++ ",".intercalate (xs.map showVal) ++ ")"
+  | .dict kv => "D(" ++ ",".intercalate ((sortPairs kv).map fun (k, v) => showCps k ++ ":" ++ showVal v) ++ ")"
+end
+
+def showExc (e : Exc) : String :=
+  "X(" ++ showCps e.cls ++ ";" ++ showVal (.list e.args) ++ ";" ++ showVal (.dict e.attrs) ++ ")"
+
+def showOutcome : Outcome → String
+  | .value v => "value:" ++ showVal v
+  | .raised e => "raised:" ++ showExc e
+  | .connLost => "connlost"
+  | .codecFailed => "codecfailed"
+  | .unmodelled => "unmodelled"
+
+def showResult (r : ClientOut × ConnFate) : String :=
+  showOutcome r.1.outcome ++ " y=" ++ showVal (.list r.1.yielded) ++ " rel=" ++ (if r.1.released then "1" else "0")
+    ++ " conn=" ++ (match r.2 with | .active => "a" | .dropped => "d")
+
+def showPy : PyObj → String
+  | .data v => "data:" ++ showVal v
+  | .exc e => "exc:" ++ showExc e
+  | .wrapper e => "wrapper:" ++ showExc e
+  | .foreign q => "foreign:" ++ showCps q
+
+/-- `str(e)` and `str(type(e))` as the harness writes them into the expected fallback text -/
+def drvRender : Render :=
+  { strOf := fun e => cs "{" ++ e.cls ++ cs "}"
+    typeRepr := fun q =>
+      let b := cs "builtins."
+      cs "<class '" ++ (if b.isPrefixOf q then q.drop b.length else q) ++ cs "'>" }
+
+def parseKind (s : String) : Option CallKind :=
+  match s with
+  | "p" => some (.plain false)
+  | "c" => some (.plain true)
+  | "g" => some .getattr
+  | "s" => some .setattr
+  | "i" => some .streamItem
+  | _ => none
+
+def step : List String → String
+  | ["single", seq, unser, ctor, kind, tb, st] =>
+    match full pExc unser, parseCtor ctor, parseKind kind, full pVal tb, full pStep st with
+    | some ue, some ct, some k, some t, some s =>
+      showResult (clientCall genServerEnv (genClientEnv ct) (treeCodec (seq == "1") ue) drvRender k s t)
+    | _, _, _, _, _ => "bad-op"
+  | "batch" :: seq :: unser :: ctor :: bf :: tb :: steps =>
+    match full pExc unser, parseCtor ctor, full pVal tb, steps.mapM (full pStep) with
+    | some ue, some ct, some t, some ss =>
+      showResult (clientBatch genServerEnv (genClientEnv ct) (treeCodec (seq == "1") ue) drvRender (bf == "1") ss t)
+    | _, _, _, _ => "bad-op"
+  | ["decode", ctor, v] =>
+    match parseCtor ctor, full pVal v with
+    | some ct, some lit =>
+      match recreate (genClientEnv ct) lit with
+      | .ok (.one o) => "one:" ++ showPy o
+      | .ok (.many os) => "many:[" ++ " ".intercalate (os.map showPy) ++ "]"
+      | .error (.raised e) => "err:" ++ showExc e
+      | .error .unmodelled => "unmodelled"
+      | .error .fuel => "fuel"
+    | _, _ => "bad-op"
+  | _ => "bad-op"
+
+def main : IO Unit := runDriver step
